@@ -30,6 +30,13 @@ namespace details {
             static constexpr std::size_t number_of_attributes = 0;
         };
 
+        // stands in for the characteristics of a service without characteristics, to carry the attributes of the service itself
+        struct characteristics_of_empty_service
+        {
+            static constexpr std::size_t number_of_attributes     = 0;
+            static constexpr std::size_t number_of_client_configs = 0;
+        };
+
         template < typename Characteristic, std::size_t FirstAttributesIndex, int Prio >
         struct characteristic_index_pair
         {
@@ -129,10 +136,12 @@ namespace details {
         template < typename Characteristics, typename Service >
         struct characteristics_from_service
         {
+            // a service without characteristics still has attributes, that have to be counted
             template < typename C >
             struct add_service_offset
             {
-                using type = std::tuple<>;
+                using type = std::tuple<
+                    impl::characteristic_with_service_attribute_offset< impl::characteristics_of_empty_service, Service::number_of_service_attributes, 0 > >;
             };
 
             // Add just to the first characteritic of a service the numer of attributes that are used to
